@@ -454,9 +454,11 @@ def bad_values(kind):
     if kind == "dict_kitem":
         return [["dict", [["a", 3]]], ["dict", [[1, ["kitem", {"k": "a"}]]]], 5]
     if kind == "klist":
-        return [["list", [["kitem", {"k": "a"}], 3]], 5, ["list", [["kitem", {"k": "a"}], ["kitem", {"k": "a"}]]]]
+        return [["list", [["kitem", {"k": "a"}], 3]], 5, ["list", [["kitem", {"k": "a"}], ["kitem", {"k": "a"}]]],
+                ["klist_any", [["kitem", {"k": "a"}], 3]], ["klist_any", ["zz"]], ["klist_any", [["leaf", {"p": 1, "q": "u"}]]]]
     if kind == "kset":
-        return [["list", [["kitem", {"k": "a"}], 3]], 5]
+        return [["list", [["kitem", {"k": "a"}], 3]], 5,
+                ["kset_any", [["kitem", {"k": "a"}], 3]], ["kset_any", ["zz"]], ["kset_any", [["leaf", {"p": 1, "q": "u"}]]]]
     raise HarnessError(f"unknown kind {kind}")
 
 
@@ -568,6 +570,12 @@ def build_value(v, classes, faults=None):
         return classes["kitem"](**kw)
     if tag == "host" or tag == "sub":
         return classes[tag](**{k: b(x) for k, x in payload.items()})
+    if tag == "klist_any":  # an *untyped* KeyedList: accepts any hashable / keyed item
+        _, KeyedList, _, _, _ = _lib()
+        return KeyedList([b(x) for x in payload])
+    if tag == "kset_any":
+        _, _, KeyedSet, _, _ = _lib()
+        return KeyedSet([b(x) for x in payload])
     if tag == "klist":
         _, KeyedList, _, _, _ = _lib()
         return KeyedList[classes["kitem"], str]([b(x) for x in payload])
